@@ -138,6 +138,7 @@ def removeKey {α} (k : Key) (ms : List (Key × α)) : List (Key × α) := ms.fi
 inductive Out (α : Type) where
   | done                      -- nothing returned
   | val (v : α)               -- a value handed to the caller
+  | vals (vs : List α)        -- several values handed to the caller (`split_off`, `drain`)
   | none                      -- `None`
   | missing                   -- `pointer_mut` found nothing
   | panic                     -- the call panicked (the reference rejects the operation)
@@ -195,10 +196,15 @@ inductive MOp (α : Type) where
   | setKey (k : Key) (x : α)          -- `v[k] = x` (`index_or_insert`)
   | setIdx (n : Nat) (x : α)          -- `v[n] = x`
   | orInsert (k : Key) (x : α)        -- `entry(k).or_insert(x)`; reports the member afterwards
+  | splitOff (n : Nat)                -- `Array::split_off`
+  | drain (a b : Nat)                 -- `Array::drain(a..b)`, collected
+  | extendWithin (a b : Nat)          -- `Array::extend_from_within(a..b)`
+  | resize (n : Nat) (x : α)          -- `Array::resize`
+  | retainNonNull                     -- `Array::retain(|v| !v.is_null())` / `Object::retain(|_, v| !v.is_null())`
   deriving Repr, Inhabited
 
 /-- the operation on an owned array -/
-def arrOp {α} (xs : List α) : MOp α → Option (List α × Out α)
+def arrOp {α} (isNull : α → Bool) (xs : List α) : MOp α → Option (List α × Out α)
   | .push x => some (xs ++ [x], .done)
   | .pop => some (xs.dropLast, match xs.getLast? with | some v => .val v | none => .none)
   | .insertAt n x => if n ≤ xs.length then some (xs.take n ++ x :: xs.drop n, .done) else some (xs, .panic)
@@ -210,10 +216,15 @@ def arrOp {α} (xs : List α) : MOp α → Option (List α × Out α)
   | .truncate n => some (xs.take n, .done)
   | .clear => some ([], .done)
   | .setIdx n x => if n < xs.length then some (xs.set n x, .done) else some (xs, .panic)
+  | .splitOff n => if n ≤ xs.length then some (xs.take n, .vals (xs.drop n)) else some (xs, .panic)
+  | .drain a b => if a ≤ b ∧ b ≤ xs.length then some (xs.take a ++ xs.drop b, .vals ((xs.drop a).take (b - a))) else some (xs, .panic)
+  | .extendWithin a b => if a ≤ b ∧ b ≤ xs.length then some (xs ++ (xs.drop a).take (b - a), .done) else some (xs, .panic)
+  | .resize n x => if xs.length < n then some (xs ++ List.replicate (n - xs.length) x, .done) else some (xs.take n, .done)
+  | .retainNonNull => some (xs.filter (fun v => !isNull v), .done)
   | _ => none
 
 /-- the operation on an owned map -/
-def objOp {α} (null : α) (ms : List (Key × α)) : MOp α → Option (List (Key × α) × Out α)
+def objOp {α} (isNull : α → Bool) (null : α) (ms : List (Key × α)) : MOp α → Option (List (Key × α) × Out α)
   | .clear => some ([], .done)
   | .objInsert k x => some (insertKey k x ms, match lookup k ms with | some v => .val v | none => .none)
   | .objRemove k => some (removeKey k ms, match lookup k ms with | some v => .val v | none => .none)
@@ -221,6 +232,7 @@ def objOp {α} (null : α) (ms : List (Key × α)) : MOp α → Option (List (Ke
   | .orInsert k x => (match lookup k ms with
       | some v => some (ms, .val v)
       | none => some (ms ++ [(k, x)], .val x))
+  | .retainNonNull => some (ms.filter (fun p => !isNull p.2), .done)
   | _ => Option.none
 
 /-- `v[k] = x` on a value that is not a container: `null` becomes an object, anything else panics -/
@@ -240,11 +252,11 @@ def J.isNull : J → Bool
 def DV.applyC (op : MOp DV) (v : DV) : DV × Out DV :=
   match promote v with
   | .arrMut xs =>
-    (match arrOp xs op with
+    (match arrOp DV.isNull xs op with
      | some r => (.arrMut r.1, r.2)              -- (the array has been promoted even when the call then panics)
      | none => (v, .panic))                      -- wrong kind: rejected before any access
   | .objMut ms =>
-    (match objOp DV.null ms op with
+    (match objOp DV.isNull DV.null ms op with
      | some r => (.objMut r.1, r.2)
      | none => (v, .panic))
   | _ => scalarOp DV.objMut v.isNull v op
@@ -252,11 +264,11 @@ def DV.applyC (op : MOp DV) (v : DV) : DV × Out DV :=
 def J.applyC (op : MOp J) (v : J) : J × Out J :=
   match v with
   | .arr xs =>
-    (match arrOp xs op with
+    (match arrOp J.isNull xs op with
      | some r => (.arr r.1, r.2)
      | none => (v, .panic))
   | .obj ms =>
-    (match objOp J.null ms op with
+    (match objOp J.isNull J.null ms op with
      | some r => (.obj r.1, r.2)
      | none => (v, .panic))
   | _ => scalarOp J.obj v.isNull v op
@@ -297,6 +309,11 @@ def MOp.mapM {α β} (f : α → Option β) : MOp α → Option (MOp β)
   | .setKey k x => (f x).map (.setKey k)
   | .setIdx n x => (f x).map (.setIdx n)
   | .orInsert k x => (f x).map (.orInsert k)
+  | .splitOff n => some (.splitOff n)
+  | .drain a b => some (.drain a b)
+  | .extendWithin a b => some (.extendWithin a b)
+  | .resize n x => (f x).map (.resize n)
+  | .retainNonNull => some .retainNonNull
 
 inductive HOp where
   | new (v : DV)                                        -- a parsed / built value enters
